@@ -227,7 +227,7 @@ func init() {
 	facet.Register(facet.F[PrefixCase]{
 		Prop: "C05", Name: "prefix/continuation",
 		Rule:  "prefix p = a hostile string (combining marks, Hangul jamo, emoji modifiers, ZWJ, VS16, regional indicators, CR/LF, ASCII delimiters, table-scanned combining code points) cut at a code point boundary; continuations = the cut-off tail, 2-6 drawn ones and a fixed list of ~150 hostile continuation heads; oracle HasPrefix(NFC(p+s), SafeKnownPrefix(p)) for every s; non-trivial when for a drawn continuation NFC(p+s) != NFC(p)+NFC(s) or a grapheme cluster spans the cut; distinct = hash of (p, drawn continuations)",
-		Quick: 40000, Thorough: 600000, Shards: 8,
+		Quick: 40000, Thorough: 300000, Shards: 8,
 		Gen: genPrefixCase,
 		Check: func(c *facet.Ctx, in PrefixCase) error {
 			r, f := safePrefix(in.P)
@@ -247,7 +247,7 @@ func init() {
 	facet.Register(facet.F[BuilderPrefixCase]{
 		Prop: "C05", Name: "prefix/through-builder",
 		Rule:  "(p, s, s2) from the hostile alphabet with p|s a cut of one drawn string; StringPrefix(p) on an unknown string must keep StringVal(p+s), StringVal(p+s+s2), StringVal(p) in range (Includes / Equals not False), refining those known strings with StringPrefix(p) must not panic, StringPrefix(p) and StringPrefix(p+s) must be compatible in both orders, StringPrefixFull(p) records NFC(p); non-trivial when NFC(p+s) != NFC(p)+NFC(s) or a cluster spans the cut",
-		Quick: 25000, Thorough: 300000, Shards: 8,
+		Quick: 25000, Thorough: 150000, Shards: 8,
 		Gen: func(t *rapid.T) BuilderPrefixCase {
 			w := drawHostile(t, 1, 6)
 			k := rapid.SampledFrom(cutPoints(w)).Draw(t, "cut")
